@@ -461,13 +461,15 @@ class Group(System):
                                                                src_node_meta.global_shape,
                                                                src_node_meta.global_size)
 
+                        # index the array-valued factors first, then broadcast a scalar one
+                        # to the indexed shape
                         if not scalar_ref:
                             ref = ref[src_indices]
-                        else:  # ref is scalar so ref0 must be an array
-                            ref = np.full(ref0.shape, ref)
                         if not scalar_ref0:
                             ref0 = ref0[src_indices]
-                        else:  # ref0 is scalar so ref must be an array
+                        if scalar_ref:  # ref is scalar so ref0 must be an array
+                            ref = np.full(ref0.shape, ref)
+                        elif scalar_ref0:  # ref0 is scalar so ref must be an array
                             ref0 = np.full(ref.shape, ref0)
 
                 # Compute scaling arrays for inputs using a0 and a1
